@@ -365,7 +365,8 @@ def u_dimension_files(W, sk):
                 _write_table(path, rows, "xlsx", sheet="wanted", other_sheets=[("Other", decoy)])
                 reader = ExcelDimensionReader(dimension_files={name: path}, dimension_sheets={name: "wanted"})
             else:
-                _write_table(path, rows, "xlsx", other_sheets=[("Other", decoy)])
+                # (the later sheet bears the dimension's name: still the *first* sheet is the one to read)
+                _write_table(path, rows, "xlsx", other_sheets=[(name, decoy)])
                 reader = ExcelDimensionReader(dimension_files={name: path})
         dd = DimensionDefinition(name=name, letter=letter, dtype=dtype)
         out = W.call(lambda: reader.read_dimension(dd))
@@ -387,7 +388,7 @@ def u_dimension_files(W, sk):
             _write_table(path, rows2, "xlsx", sheet="wanted", other_sheets=[("Other", decoy)])
             reader2 = ExcelDimensionReader(dimension_files={name: path}, dimension_sheets={name: "wanted"})
         else:
-            _write_table(path, rows2, "xlsx", other_sheets=[("Other", decoy)])
+            _write_table(path, rows2, "xlsx", other_sheets=[(name, decoy)])
             reader2 = ExcelDimensionReader(dimension_files={name: path})
         for who, rd in (("same reader", reader), ("new reader", reader2)):
             out = W.call(lambda: rd.read_dimension(dd))
@@ -441,14 +442,14 @@ def u_system_files(W, sk):
             out = W.call(lambda: MFASystem.from_csv(definition, dimension_files=dimfiles, parameter_files={"share": prmfile}))
         else:
             named = sk["sheets"] == "named"
-            _write_table(dimfiles["Time"], [[y] for y in years], "xlsx", sheet="T" if named else None, other_sheets=[("zzz", [["n", "o"], ["p", "e"]])])
-            _write_table(dimfiles["Element"], [elems], "xlsx", sheet="E" if named else None, other_sheets=[("zzz", [["n", "o"], ["p", "e"]])])
+            _write_table(dimfiles["Time"], [[y] for y in years], "xlsx", sheet="T" if named else None, other_sheets=[("zzz" if named else "Time", [["n", "o"], ["p", "e"]])])
+            _write_table(dimfiles["Element"], [elems], "xlsx", sheet="E" if named else None, other_sheets=[("zzz" if named else "Element", [["n", "o"], ["p", "e"]])])
             with pd.ExcelWriter(prmfile) as xw:
                 if named:
                     pd.DataFrame({"a": [1]}).to_excel(xw, sheet_name="first", index=False)
                 long.to_excel(xw, sheet_name="P", index=False)
                 if not named:
-                    pd.DataFrame({"a": [1]}).to_excel(xw, sheet_name="later", index=False)
+                    pd.DataFrame({"a": [1]}).to_excel(xw, sheet_name="share", index=False)  # a later sheet named like the parameter
             kw = dict(dimension_sheets={"Time": "T", "Element": "E"}, parameter_sheets={"share": "P"}) if named else {}
             out = W.call(lambda: MFASystem.from_excel(definition, dimension_files=dimfiles, parameter_files={"share": prmfile}, **kw))
         W.prove("from_files.returns", out.kind == "return", detail=repr(out))
